@@ -499,3 +499,103 @@ def v_struct(tier_name):
             return {'status': 'error', 'messages': ['struct stand-in differs at %d' % n], 'cases': cases}
     return {'status': 'confirmed', 'cases': cases, 'nontrivial_witness': True,
             'detail': 'FakeStruct.pack accepts/rejects like struct.pack on %d boundary values' % cases}
+
+
+# ---------------------------------------------------------------------------
+# socket-backed connections (Listener.accept / Client): the framing code above assumes blocking reads and writes, so the
+# socket handed to Connection must be in blocking mode whatever socket.setdefaulttimeout() was in effect when it was made
+# (a default timeout creates sockets - also accepted ones - in non-blocking mode: a read in the middle of a message then
+# raises BlockingIOError and the stream loses its framing)
+
+class _FakeSock:
+    log = None
+
+    def __init__(self, mod, family=None):
+        self.mod = mod
+        self.blocking = mod.default_timeout is None      # what socket.socket() / accept() do under a default timeout
+        self.eintr = 0
+
+    def setsockopt(self, *a):
+        pass
+
+    def setblocking(self, flag):
+        self.blocking = bool(flag)
+
+    def settimeout(self, t):
+        self.blocking = t is None
+
+    def bind(self, address):
+        pass
+
+    def listen(self, backlog):
+        pass
+
+    def getsockname(self):
+        return ('127.0.0.1', 1234)
+
+    def connect(self, address):
+        pass
+
+    def accept(self):
+        if self.eintr > 0:
+            self.eintr -= 1
+            raise OSError(errno.EINTR, 'Interrupted system call')
+        return _FakeSock(self.mod), ('127.0.0.1', 4321)
+
+    def detach(self):
+        self.mod.detached.append(self.blocking)
+        return 77
+
+    def fileno(self):
+        return 77
+
+    def close(self):
+        pass
+
+
+class _FakeSocketModule:
+    AF_INET = 2
+    AF_UNIX = 1
+    SOL_SOCKET = 1
+    SO_REUSEADDR = 2
+    error = OSError
+
+    def __init__(self, default_timeout):
+        self.default_timeout = default_timeout
+        self.detached = []
+
+    def socket(self, family=None, *a):
+        return _FakeSock(self, family)
+
+
+def h_socket_blocking(side: int, tsel: int, eintr: int) -> bool:
+    """
+    pre: 0 <= side <= 1 and 0 <= tsel <= 2 and 0 <= eintr <= 2
+    post: _
+    """
+    import errno as _e
+    globals()['errno'] = _e
+    mod = _FakeSocketModule((None, 0.0, 5.0)[tsel])
+    saved = (bc.socket, bc.Connection, getattr(bc, 'detach', None))
+    made = []
+    bc.socket = mod
+    bc.Connection = lambda handle, *a, **k: made.append(handle) or ('connection', handle)
+    bc.detach = lambda s: s.detach()
+    try:
+        if side == 0:
+            lst = bc.SocketListener.__new__(bc.SocketListener)
+            lst._socket = _FakeSock(mod)
+            lst._socket.eintr = eintr
+            lst._last_accepted = None
+            conn = lst.accept()
+        else:
+            conn = bc.SocketClient(('127.0.0.1', 1234))
+    finally:
+        bc.socket, bc.Connection = saved[0], saved[1]
+        if saved[2] is not None:
+            bc.detach = saved[2]
+    if made != [77] or mod.detached == []:
+        return fail('C13:socket:no-connection-made')
+    if mod.detached != [True]:
+        return fail('C13:socket:connection-made-over-a-non-blocking-socket')
+    return True
